@@ -366,7 +366,7 @@ impl Property for C15 {
     fn rule(&self) -> String {
         "each case = a tree of labels and constants to depth 4 (names per level drawn from small pools so that local names repeat under different parents; constants open scopes like labels; \
          constant values are literals or other symbols + n in any declaration order) interleaved with `#d32 <reference>` items that name a declared symbol (also ones declared later) by a spelling \
-         chosen from all valid ones (absolute dotted path, or k leading dots for any k up to the common prefix with the scope chain at the point of use), a quarter of the cases with one fault (unknown name, a reference with more leading dots than enclosing symbols in front of an existing name, a dotted path through an undeclared parent that ends in the name of a global, skipped nesting level, duplicate declaration); one case in five carries `#bank` directives between declarations and uses (a bank switch declares nothing), one in eight a reverse chain of 6-16 constants read by the first item. Oracle = R-SCOPE + R-LAYOUT: the reference resolves each reference and gives bits and symbol table, or rejects. \
+         chosen from all valid ones (absolute dotted path, or k leading dots for any k up to the common prefix with the scope chain at the point of use), a quarter of the cases with one fault (unknown name, a reference with more leading dots than enclosing symbols in front of an existing name, a dotted path through an undeclared parent that ends in the name of a global, skipped nesting level, duplicate declaration); one case in five carries `#bank` directives between declarations and uses (a bank switch declares nothing), one in eight a reverse chain of 6-30 constants read by the first item. Oracle = R-SCOPE + R-LAYOUT: the reference resolves each reference and gives bits and symbol table, or rejects. \
          Metamorphic part: global address-free constants standing at scope-neutral positions are moved to the end/start of the file; the moved program must assemble to the same bits; \
          and runs of items that declare no global symbol are wrapped into selected #if / #else / #elif arms (dead arms hold decoys), which must give the same bits and symbol table. \
          Non-trivial = a name is declared under >= 2 parents and the case has >= 3 references; distinct by hash of the source."
